@@ -50,7 +50,9 @@ theorem gen_structure :
     tickReturnPlus = 1 ∧ tickIncrement = 1 ∧
     scanBoundIsMinCountSize = true ∧ scanCountFromAccessorNumber = true ∧ scanFallsBackToThreadIds = true ∧
     scanStartsFromMax = true ∧ scanTakesMinimum = true ∧ scanSnapshotBeforeCount = true ∧
-    slotInitIsMax = true ∧ slotInitLockTimes = 0 ∧ versionOffset = 0 ∧ maxVersion = 2 ^ 64 - 1 := by decide
+    slotInitIsMax = true ∧ slotInitLockTimes = 0 ∧ versionOffset = 0 ∧ maxVersion = 2 ^ 64 - 1 ∧
+    -- the scan bound (`auto number = accessor_number()`) is at least as wide as the id counter: no wrap
+    idCounterBytes ≤ accessorNumberBytes ∧ accessorNumberBytes = 8 := by decide
 
 /-- **The memory orders written in the source satisfy what the safety proof needs**: the reader's
 fence is `seq_cst`, `tick` is a `seq_cst` RMW (or a releasing RMW followed by a `seq_cst` fence),
